@@ -76,6 +76,22 @@ fn check_seq(c: &SeqCase, reps: usize, obs: &mut Obs) -> Verdict {
         }
         execs += 6;
     }
+    // two windows of ONE buffer give the ops that the same windows of two separate copies give
+    if !c.old.is_empty() {
+        let buf = &c.old;
+        let cl = |x: usize| x.min(buf.len());
+        let nr2 = (cl(c.nr.0).min(cl(c.nr.1)), cl(c.nr.1));
+        let copy = buf.clone();
+        match (
+            guard(|| capture_diff(alg_of(c.alg), &buf[..], c.old_r(), &buf[..], nr2.0..nr2.1)),
+            guard(|| capture_diff(alg_of(c.alg), &buf[..], c.old_r(), &copy[..], nr2.0..nr2.1)),
+        ) {
+            (Ok(a), Ok(b)) if a == b => {}
+            (Ok(a), Ok(b)) => return Verdict::Fail(format!("{}: the windows {:?} and {:?} of ONE buffer {:?} give {:?}, the same windows of two separate copies give {:?}", alg_name(c.alg), c.or, nr2, buf, a, b)),
+            (Err(p), _) | (_, Err(p)) => return Verdict::Fail(format!("capture_diff over two windows of one buffer: {}", p)),
+        }
+        execs += 2;
+    }
     // order-preserving injective relabellings: other values, hashes and types
     let f = |x: u32| (x as u64) * 7919 + 13;
     let (o64, n64): (Vec<u64>, Vec<u64>) = (c.old.iter().map(|x| f(*x)).collect(), c.new.iter().map(|x| f(*x)).collect());
@@ -175,7 +191,45 @@ fn check_text(c: &TextCase, reps: usize, obs: &mut Obs) -> Verdict {
             Err(p) => return Verdict::Fail(format!("text diff: {}", p)),
         }
     }
-    obs.executions = 2 + reps as u64;
+    // one configuration object and the same two String buffers used for an earlier diff of other
+    // texts of the same lengths (buffers cleared and refilled in place: same address, same length)
+    {
+        let other = |s: &str| -> String {
+            let mut ls: Vec<&str> = s.split_inclusive('\n').collect();
+            ls.reverse();
+            let mut v = ls.concat();
+            // move the last line break (if any) so that line boundaries differ but the length does not
+            if let Some(p) = v.rfind('\n') {
+                if p > 0 && v.is_char_boundary(p - 1) && v.as_bytes()[p - 1].is_ascii() {
+                    let mut b = v.into_bytes();
+                    b.swap(p - 1, p);
+                    v = String::from_utf8(b).unwrap_or_default();
+                }
+            }
+            v
+        };
+        let (vo, vn) = (other(o), other(n));
+        if vo.len() == o.len() && vn.len() == n.len() {
+            let mut bo = String::with_capacity(o.len().max(1));
+            let mut bn = String::with_capacity(n.len().max(1));
+            bo.push_str(&vo);
+            bn.push_str(&vn);
+            let r = guard(|| {
+                let _ = diff_str(&cfg, tok, &bo, &bn).ops().len();
+            });
+            bo.clear();
+            bo.push_str(o);
+            bn.clear();
+            bn.push_str(n);
+            let again = guard(|| diff_str(&cfg, tok, &bo, &bn).ops().to_vec());
+            match (r, again) {
+                (Ok(()), Ok(x)) if x == so => {}
+                (Ok(()), Ok(x)) => return Verdict::Fail(format!("{} {}: the same configuration object and the same (refilled) String buffers used a second time give {:?}, a fresh diff gives {:?}", alg_name(c.alg), TOKENIZERS[tok as usize], x, so)),
+                (Err(p), _) | (_, Err(p)) => return Verdict::Fail(format!("text diff over reused buffers: {}", p)),
+            }
+        }
+    }
+    obs.executions = 4 + reps as u64;
     obs.nontrivial = ntok > 100 && so.len() >= 2;
     obs.class("text: str vs [u8]");
     obs.class_if(ntok > 100, "text: > 100 tokens (IdentifyDistinct path)");
@@ -268,7 +322,7 @@ impl Prop for C20 {
     type Case = Case;
     const ID: &'static str = "C20";
     fn rule() -> String {
-        "cases = Seq(algorithm, old, new, ranges) biased to many unique items with block moves and reversals (so hash-map iteration order could matter) | Text(old, new valid UTF-8, tokenizer in {lines, words, chars}, algorithm), sizes below and above 100 tokens. Each Seq case is executed 1 + 8 times in the same thread and in 4 freshly spawned threads (every HashMap::new() and every new thread draws fresh hasher keys), and under two order-preserving injective relabellings (u64 x -> 7919x+13, zero-padded Strings), with items whose lawful Hash only sees two bits of the value, and with different element types on the two sides (old u64, new Id32: PartialEq<u64> with an unrelated Hash); all op lists must be identical; with a deadline that has already passed, 5 calls in this thread and a fresh thread must agree as well; full-range cases are also diffed as a TEXT diff (TextDiffConfig::diff_slices) over caller-defined DiffableStr tokens that compare by a key only while every occurrence has a different text. Families include sequences of 101-260/500 items with repeats and a long common head and tail, permutations of 90-400 and of 1030-1400/2600 distinct items. Text: str ops == [u8] ops, repeated runs identical. Non-trivial = >= 3 unique common items and >= 2 ops (Seq) / > 100 tokens (Text); distinct = distinct serialized case.".into()
+        "cases = Seq(algorithm, old, new, ranges) biased to many unique items with block moves and reversals (so hash-map iteration order could matter) | Text(old, new valid UTF-8, tokenizer in {lines, words, chars}, algorithm), sizes below and above 100 tokens. Each Seq case is executed 1 + 8 times in the same thread and in 4 freshly spawned threads (every HashMap::new() and every new thread draws fresh hasher keys), and under two order-preserving injective relabellings (u64 x -> 7919x+13, zero-padded Strings), with items whose lawful Hash only sees two bits of the value, and with different element types on the two sides (old u64, new Id32: PartialEq<u64> with an unrelated Hash); all op lists must be identical; with a deadline that has already passed, 5 calls in this thread and a fresh thread must agree as well; full-range cases are also diffed as a TEXT diff (TextDiffConfig::diff_slices) over caller-defined DiffableStr tokens that compare by a key only while every occurrence has a different text. Families include sequences of 101-260/500 items with repeats and a long common head and tail, permutations of 90-400 and of 1030-1400/2600 distinct items. two windows of ONE buffer must give the ops of the same windows of two copies. Text: str ops == [u8] ops, repeated runs identical, and a configuration object plus two String buffers that were used for an earlier diff of other texts of the same lengths (refilled in place) give the ops of a fresh diff. Non-trivial = >= 3 unique common items and >= 2 ops (Seq) / > 100 tokens (Text); distinct = distinct serialized case.".into()
     }
     fn assumptions() -> Vec<String> {
         vec![
